@@ -55,9 +55,32 @@ pub fn replay(id: &str, file: &str) -> i32 {
     };
     let case = j.get("case").and_then(|c| c.as_str()).unwrap_or("").to_string();
     let tier = Tier::parse(j.get("tier").and_then(|c| c.as_str()).unwrap_or("quick"));
+    let loc = match (j.get("stage").and_then(|x| x.as_u64()), j.get("idx").and_then(|x| x.as_u64())) {
+        (Some(s), Some(i)) => Some((s as usize, i)),
+        _ => None,
+    };
+    if id == "C13" {
+        // show that the recorded schedule is deterministic before judging it
+        if let Some(ch) = case.split("choices=").nth(1) {
+            let w = case.split('|').next().unwrap_or("");
+            let a = c13::replay_schedule(w, ch);
+            let b = c13::replay_schedule(w, ch);
+            println!("replay: schedule {} of {} gives {:?}", ch, w, a);
+            if a != b {
+                println!("REPLAY-NONDETERMINISTIC: second run gives {:?}", b);
+                return 2;
+            }
+        }
+    }
     let run = || {
         let mut out = WorkerOut::default();
-        common::replay_case(p, tier, &case, &mut out);
+        match loc {
+            Some((s, i)) => {
+                out.stage = Some(s);
+                p.run(tier, s, i, i + 1, &mut out)
+            }
+            None => common::replay_case(p, tier, &case, &mut out),
+        }
         out.fails.iter().map(|(k, (f, _))| format!("{} :: {}", k, f.detail)).collect::<Vec<_>>()
     };
     let r1 = run();
@@ -66,12 +89,27 @@ pub fn replay(id: &str, file: &str) -> i32 {
         println!("REPLAY-NONDETERMINISTIC: {:?} vs {:?}", r1, r2);
         return 2;
     }
+    let recorded_key = j.get("key").and_then(|c| c.as_str()).unwrap_or("").to_string();
+    let r1: Vec<String> = if r1.iter().any(|l| l.starts_with(&format!("{} ::", recorded_key))) {
+        r1.into_iter().filter(|l| l.starts_with(&format!("{} ::", recorded_key))).collect()
+    } else {
+        r1
+    };
     if r1.is_empty() {
         println!("replay: case passes: {}", case);
         0
     } else {
         for l in &r1 {
             println!("replay: {}", l);
+        }
+        let known = load_known(&format!("{}/known_findings.txt", verif_root()));
+        let all_known = r1.iter().all(|l| {
+            let key = l.split(" :: ").next().unwrap_or("");
+            known.iter().any(|k| k.status == "open" && k.property == id && k.key == key)
+        });
+        if all_known {
+            println!("KNOWN-FINDING: property={} {} (replayed)", id, recorded_key);
+            return 0;
         }
         println!("VIOLATION property={} replay={}", id, file);
         1
